@@ -157,3 +157,219 @@ Proof.
   - now rewrite Z.eqb_refl.
   - destruct (Z.eqb k k') eqn:E; cbn [dict_get]; [now rewrite Z.eqb_refl|now rewrite E].
 Qed.
+
+(* ------------------------------------------------------------------------ *)
+(* parse_fill_kw on FILL arrays                                              *)
+(* ------------------------------------------------------------------------ *)
+Lemma contains_char_app c x y : contains_char c (x ++ y) = contains_char c x || contains_char c y.
+Proof.
+  induction x as [|d r IH]; cbn [append contains_char]; [reflexivity|]. now rewrite IH, orb_assoc.
+Qed.
+
+Lemma spells_range_has_colon s b : spells_range s b -> has_colon s = true.
+Proof.
+  intros (a & c & -> & _ & _). unfold has_colon. rewrite contains_char_app. cbn [contains_char].
+  rewrite Ascii.eqb_refl. now rewrite orb_true_r.
+Qed.
+
+Local Open Scope list_scope.
+
+Lemma int_spelling_no_colon t u : int_of_signed t = Some u -> has_colon t = false.
+Proof.
+  destruct colon_facts as (Hd & Hm & Hp). intros H. now apply (int_of_signed_no_char _ _ _ Hd Hm Hp H).
+Qed.
+
+Lemma span_tokens_app (f : string -> bool) (l1 l2 : list string) :
+  Forall (fun t => f t = true) l1 ->
+  (l2 = [] \/ exists h r, l2 = h :: r /\ f h = false) ->
+  span_tokens f (l1 ++ l2) = (l1, l2).
+Proof.
+  intros H1 H2. induction H1 as [|t l Ht _ IH]; cbn [app span_tokens].
+  - destruct H2 as [-> | (h & r & -> & Hh)]; [reflexivity|]. cbn [span_tokens]. now rewrite Hh.
+  - now rewrite Ht, IH.
+Qed.
+
+Lemma digit_not_letter c : is_digit c = true ->
+  Ascii.eqb c "r" = false /\ Ascii.eqb c "i" = false /\ Ascii.eqb c "m" = false /\
+  Ascii.eqb c "j" = false /\ Ascii.eqb c "g" = false.
+Proof.
+  destruct c as [[] [] [] [] [] [] [] []]; intros H; try discriminate H; repeat split; reflexivity.
+Qed.
+
+Lemma all_digits_last s : s <> "" -> all_digits s = true ->
+  exists c, last_char s = Some c /\ is_digit c = true.
+Proof.
+  induction s as [|d r IH]; intros Hne H; [contradiction|].
+  cbn [all_digits] in H. apply andb_true_iff in H as [Hd Hr].
+  destruct r as [|e r'].
+  - exists d. now split.
+  - destruct (IH ltac:(discriminate) Hr) as (c & Hc & Hdc). exists c. split; [exact Hc|exact Hdc].
+Qed.
+
+Lemma int_of_string_last s n : int_of_string s = Some n ->
+  exists c, last_char s = Some c /\ is_digit c = true.
+Proof.
+  unfold int_of_string. destruct s as [|d r]; [discriminate|].
+  destruct (all_digits (String d r)) eqn:E; [|discriminate]. intros _.
+  apply all_digits_last; [discriminate|exact E].
+Qed.
+
+Lemma last_char_cons c s : s <> "" -> last_char (String c s) = last_char s.
+Proof. destruct s; [contradiction|reflexivity]. Qed.
+
+Lemma int_of_signed_last t z : int_of_signed t = Some z ->
+  exists c, last_char t = Some c /\ is_digit c = true.
+Proof.
+  unfold int_of_signed. intros H.
+  assert (Hgen : forall n, int_of_string t = Some n -> exists c, last_char t = Some c /\ is_digit c = true)
+    by (intros n; apply int_of_string_last).
+  destruct t as [|d r]; [discriminate|].
+  assert (Hsub : forall n, int_of_string r = Some n ->
+                 exists c, last_char (String d r) = Some c /\ is_digit c = true).
+  { intros n Hn. destruct (int_of_string_last r n Hn) as (c & Hc & Hd).
+    exists c. split; [|exact Hd]. rewrite last_char_cons; [exact Hc|].
+    intros ->. discriminate Hn. }
+  destruct (Ascii.eqb d "-") eqn:E1; [apply Ascii.eqb_eq in E1; subst d|].
+  - destruct (int_of_string r) eqn:E; [|discriminate]. now apply (Hsub n).
+  - destruct (Ascii.eqb d "+") eqn:E2; [apply Ascii.eqb_eq in E2; subst d|].
+    + destruct (int_of_string r) eqn:E; [|discriminate]. now apply (Hsub n).
+    + assert (Hs : exists n, int_of_string (String d r) = Some n).
+      { destruct d as [[] [] [] [] [] [] [] []]; try discriminate E1; try discriminate E2;
+          (destruct (int_of_string _); [eexists; reflexivity|discriminate]). }
+      destruct Hs as [n Hn]. now apply (Hgen n).
+Qed.
+
+Lemma ends_with_log_digit t c : last_char t = Some c -> is_digit c = true -> ends_with_log t = false.
+Proof.
+  intros H Hd. unfold ends_with_log. rewrite H.
+  destruct c as [[] [] [] [] [] [] [] []]; try discriminate Hd; reflexivity.
+Qed.
+
+Definition spells_int (t : string) (u : Z) : Prop := int_of_signed t = Some u.
+
+(* exactly as many integer tokens as the card needs: all consumed, in order,
+   whatever follows *)
+Lemma expand_ints_exact (utoks : list string) (us : list Z) :
+  Forall2 spells_int utoks us ->
+  forall rest expected result consumed,
+  expected = (Z.of_nat (List.length result) + Z.of_nat (List.length us))%Z ->
+  expand_ints (utoks ++ rest) expected result consumed
+  = Ok (result ++ us, (consumed + List.length utoks)%nat).
+Proof.
+  induction 1 as [|t u utoks us Ht _ IH]; intros rest expected result consumed He.
+  - cbn [app List.length] in *. rewrite app_nil_r, Nat.add_0_r.
+    assert (Hfin : (Z.of_nat (List.length result) =? expected)%Z = true) by lia.
+    destruct rest as [|tok rest]; cbn [expand_ints]; [now rewrite Hfin|].
+    replace (expected <=? Z.of_nat (List.length result))%Z with true by lia. now rewrite Hfin.
+  - cbn [app expand_ints List.length] in *.
+    replace (expected <=? Z.of_nat (List.length result))%Z with false by lia.
+    destruct (int_of_signed_last t u Ht) as (c & Hc & Hd). rewrite Hc.
+    destruct (digit_not_letter c Hd) as (Hr & Hi & Hm & Hj & _).
+    rewrite Hr, Hi, Hm, Hj, (ends_with_log_digit t c Hc Hd). cbn [orb].
+    unfold spells_int in Ht. rewrite Ht.
+    rewrite (IH rest expected (result ++ [u]) (S consumed)).
+    + rewrite <- app_assoc. cbn [app]. f_equal. f_equal. lia.
+    + rewrite app_length. cbn [List.length]. lia.
+Qed.
+
+(* too few integer tokens and then nothing: ParseMCNPCellError *)
+Lemma expand_ints_short (utoks : list string) (us : list Z) :
+  Forall2 spells_int utoks us ->
+  forall expected result consumed,
+  (Z.of_nat (List.length result) + Z.of_nat (List.length us) < expected)%Z ->
+  expand_ints utoks expected result consumed = Err EParseCell.
+Proof.
+  induction 1 as [|t u utoks us Ht _ IH]; intros expected result consumed He.
+  - cbn [expand_ints List.length] in *.
+    replace (Z.of_nat (List.length result) =? expected)%Z with false by lia. reflexivity.
+  - cbn [expand_ints List.length] in *.
+    replace (expected <=? Z.of_nat (List.length result))%Z with false by lia.
+    destruct (int_of_signed_last t u Ht) as (c & Hc & Hd). rewrite Hc.
+    destruct (digit_not_letter c Hd) as (Hr & Hi & Hm & Hj & _).
+    rewrite Hr, Hi, Hm, Hj, (ends_with_log_digit t c Hc Hd). cbn [orb].
+    unfold spells_int in Ht. rewrite Ht. apply IH. rewrite app_length. cbn [List.length]. lia.
+Qed.
+
+Definition param_token (t : string) : Prop := is_num_start t = true /\ is_float_spelling t = true.
+Definition keyword_or_end (tail : list string) : Prop :=
+  tail = [] \/ exists h r, tail = h :: r /\ is_num_start h = false.
+
+Lemma size_pos_text bs : Forall (fun b : Z * Z => (fst b <= snd b)%Z) bs -> (0 < size bs)%Z.
+Proof.
+  induction 1 as [|[lo hi] r Hb _ IH]; [reflexivity|].
+  unfold size in *. cbn [fold_left fst snd] in *.
+  assert (E : forall (l : bounds) a, fold_left (fun x (y : Z * Z) => (x * (snd y - fst y + 1))%Z) l a
+                                   = (a * fold_left (fun x (y : Z * Z) => (x * (snd y - fst y + 1))%Z) l 1)%Z).
+  { induction l as [|b l IHl]; intros a; cbn [fold_left]; [lia|]. rewrite IHl, (IHl (1 * _)%Z). lia. }
+  rewrite E. apply Z.mul_pos_pos; lia.
+Qed.
+
+(* The exact reading of a FILL array: ranges, then exactly size(ranges)
+   integers, then EVERY following token that starts like a number is taken as a
+   parameter of ONE transformation of the whole array - surplus entries (and
+   the transformations MCNP attaches to single entries) are never rejected *)
+Theorem parse_fill_kw_array (first : string) (more : list string) (bs : bounds)
+        (utoks : list string) (us : list Z) (sur tail : list string) :
+  Forall2 spells_range (first :: more) bs ->
+  Forall (fun b : Z * Z => (fst b <= snd b)%Z) bs ->
+  Forall2 spells_int utoks us -> Z.of_nat (List.length us) = size bs ->
+  Forall param_token sur -> keyword_or_end tail ->
+  parse_fill_kw first (more ++ utoks ++ sur ++ tail) = Ok (mkFillKw (Some bs) (FArr us) sur tail).
+Proof.
+  intros Hr Hwf Hu Hlen Hsur Htail.
+  pose proof (size_pos_text bs Hwf) as Hpos.
+  inversion Hr as [|f b mr bs' Hf Hmore]; subst.
+  unfold parse_fill_kw. rewrite (spells_range_has_colon _ _ Hf).
+  assert (Hutoks : exists t0 u0 ut' us', utoks = t0 :: ut' /\ us = u0 :: us' /\ spells_int t0 u0).
+  { destruct Hu as [|t0 u0 ut' us' H0 _]; [cbn [List.length] in Hlen; lia|]. now exists t0, u0, ut', us'. }
+  destruct Hutoks as (t0 & u0 & ut' & us' & E1 & E2 & H0).
+  rewrite (span_tokens_app has_colon more (utoks ++ sur ++ tail)).
+  - rewrite (parse_ranges_spelled _ _ Hr). cbn [bind].
+    rewrite (expand_ints_exact utoks us Hu (sur ++ tail) (size (b :: bs')) [] 0)
+      by (cbn [List.length]; lia).
+    cbn [bind app Nat.add].
+    assert (Hc : List.length utoks <> 0%nat) by (rewrite E1; discriminate).
+    destruct (List.length utoks) as [|n] eqn:En; [contradiction|]. rewrite <- En.
+    replace (skipn (List.length utoks) (utoks ++ sur ++ tail)) with (sur ++ tail)
+      by (rewrite skipn_app, skipn_all, Nat.sub_diag; reflexivity).
+    rewrite (span_tokens_app is_num_start sur tail).
+    + replace (forallb is_float_spelling sur) with true; [reflexivity|].
+      symmetry. apply forallb_forall. intros t Ht. rewrite Forall_forall in Hsur. now apply Hsur.
+    + eapply Forall_impl; [|exact Hsur]. now intros t [Ht _].
+    + exact Htail.
+  - clear - Hmore. induction Hmore as [|s b0 l l' Hs _ IH]; constructor; [|exact IH].
+    now apply (spells_range_has_colon s b0).
+  - right. rewrite E1. cbn [app]. exists t0, (ut' ++ sur ++ tail). split; [reflexivity|].
+    now apply (int_spelling_no_colon t0 u0).
+Qed.
+
+(* too few universes before the end of the card: ParseMCNPCellError *)
+Theorem parse_fill_kw_array_short (first : string) (more : list string) (bs : bounds)
+        (utoks : list string) (us : list Z) :
+  Forall2 spells_range (first :: more) bs ->
+  Forall2 spells_int utoks us -> (Z.of_nat (List.length us) < size bs)%Z ->
+  parse_fill_kw first (more ++ utoks) = Err EParseCell.
+Proof.
+  intros Hr Hu Hlen.
+  inversion Hr as [|f b mr bs' Hf Hmore]; subst.
+  unfold parse_fill_kw. rewrite (spells_range_has_colon _ _ Hf).
+  rewrite (span_tokens_app has_colon more utoks).
+  - rewrite (parse_ranges_spelled _ _ Hr). cbn [bind].
+    rewrite (expand_ints_short utoks us Hu) by (cbn [List.length]; lia). reflexivity.
+  - clear - Hmore. induction Hmore as [|s b0 l l' Hs _ IH]; constructor; [|exact IH].
+    now apply (spells_range_has_colon s b0).
+  - destruct Hu as [|t0 u0 ut' us' H0 _]; [now left|].
+    right. exists t0, ut'. split; [reflexivity|]. now apply (int_spelling_no_colon t0 u0).
+Qed.
+
+(* what the parameter tokens become *)
+Theorem fill_params_shapes (star : bool) :
+  fill_params_shape star [] = PNone /\
+  (forall t, fill_params_shape star [t] = PNumber t) /\
+  (forall a b c, fill_params_shape star [a; b; c] = PTranslation a b c) /\
+  (forall l, List.length l <> 0%nat -> List.length l <> 1%nat -> List.length l <> 3%nat ->
+     fill_params_shape star l = PMatrix star l).
+Proof.
+  repeat split; try reflexivity. intros l H0 H1 H3.
+  destruct l as [|a [|b [|c [|d l]]]]; cbn in *; try contradiction; try reflexivity; lia.
+Qed.
